@@ -70,8 +70,9 @@ func TestC08(t *testing.T) {
 	p := c.rec.NewPart("tokens_exhaustive", "every space-joined sequence of 1..4 token atoms", false, true, "")
 	c.EnumSeq(p, tokenAtoms, " ", 1, pick(4, 4), judge)
 	if thorough() {
-		p = c.rec.NewPart("tokens_core_exhaustive", "every space-joined sequence of 5..6 core atoms", false, true, "")
-		c.EnumSeq(p, tokenAtomsThorough, " ", 5, 6, judge)
+		p = c.rec.NewPart("tokens_core_exhaustive", "every space-joined sequence of 5 core atoms (24) and of 6 over the first 16", false, true, "")
+		c.EnumSeq(p, tokenAtomsThorough, " ", 5, 5, judge)
+		c.EnumSeq(p, tokenAtomsThorough[:16], " ", 6, 6, judge)
 	}
 	p = c.rec.NewPart("bytes_exhaustive", "every string of length 0..3 over the SQL byte-class alphabet", false, true, "")
 	c.EnumSeq(p, gen.AlphaSQL, "", 0, 3, judge)
